@@ -8,6 +8,7 @@ import CruxVerif.Lemmas.Deliver
 import CruxVerif.Lemmas.K2
 import CruxVerif.Lemmas.Refs
 import CruxVerif.Lemmas.OwnRun
+import CruxVerif.Lemmas.GRun
 namespace Props.C02
 open M.Rt
 
@@ -157,12 +158,88 @@ example : ∃ os d, M.Hosts.runDirect (.task [.req 1 1 (.lit 0)]) false [] = som
   refine ⟨_, _, rfl, ?_⟩
   decide
 
-/-! Not proved here: over whole runs, that the values received by the task that issued request `r` are exactly those
-    resolved on `r` and no other task receives them. That is the global invariant "leaf ids held by live blocks are
-    pairwise distinct", of which `delivery_channel_private` is the allocation step and `poll_keeps_channels_unshared` /
-    `poll_never_adopts_foreign_channel` the poll step (host-free blocks) and `channels_unshared_over_runs_partial` the lift
-    over whole runs for one command without combinators; for nested commands (which needs the hosting-forest invariant)
-    and the Core / Bridge hosts it is not done; those are covered by the correspondence
+/-- OVER WHOLE RUNS, EVERY COMMAND: for every command whose task bodies are host-free — any nesting of `then`, `and`, `all`,
+    `map_effect`, `map_event`, `abortable`, builder chains, tasks with `spawn`, `join!`, `select!`, streams, hand-offs,
+    self-aborts — held directly by a test, and EVERY history of resolutions, drops, aborts and polls, in the world reached,
+    summed over ALL commands of the world (the command itself, every command it hosts at any depth, their task slabs and
+    their spawn queues):
+    (1) every request channel is referenced by AT MOST ONE suspended or queued task — in particular no task of a sibling or
+        hosted command can wait on, and so receive, the response to a request another task issued;
+    (2) no task references a channel that does not exist.
+    Global invariant `GOwn` = hosting order `HL` (C06, Lemmas/HostLt*.lean) + the measure `G l w = Σ_cmds cmdCnt l` bounded
+    by `bnd` (Lemmas/G*.lean ≈ 900 lines): the hosting order makes `drop` of a hosted command decrease the measure of
+    smaller-indexed commands only, which is what lets the poll of a host be accounted for while its own entry is out of
+    the slab. -/
+theorem channels_unshared_over_runs (c : Cmd) (hc : cmdHF c = true) (canon : Bool)
+    (acts : List M.Hosts.Action) (os : List M.Hosts.Obs) (d : M.Hosts.Direct)
+    (h : M.Hosts.runDirect c canon acts = some (os, d)) :
+    (∀ l, (d.w.cmds.map (cmdCnt l)).sum ≤ 1) ∧
+    (∀ l, d.w.leaves.length ≤ l → (d.w.cmds.map (cmdCnt l)).sum = 0) := by
+  have o := M.Hosts.runDirect_gown c hc canon acts os d h
+  constructor
+  · intro l
+    have := o.bound l
+    unfold bnd at this; unfold G at this
+    split at this <;> omega
+  · intro l hl
+    have := o.bound l
+    unfold bnd at this; unfold G at this
+    rw [if_neg (by omega)] at this
+    omega
+
+/-- … so two DIFFERENT commands of a reachable world never both reference one channel (a hosted command and its host, two
+    siblings under `and` / `all`, …). -/
+theorem commands_never_share_a_channel (c : Cmd) (hc : cmdHF c = true) (canon : Bool)
+    (acts : List M.Hosts.Action) (os : List M.Hosts.Obs) (d : M.Hosts.Direct)
+    (h : M.Hosts.runDirect c canon acts = some (os, d)) (i j : Nat) (hij : i < j) (hj : j < d.w.cmds.length) (l : Nat) :
+    cmdCnt l (d.w.cmd i) + cmdCnt l (d.w.cmd j) ≤ 1 := by
+  have h1 := (channels_unshared_over_runs c hc canon acts os d h).1 l
+  have le_sum : ∀ (L : List CmdSt) (j : Nat), cmdCnt l (L[j]?.getD {}) ≤ (L.map (cmdCnt l)).sum := by
+    intro L
+    induction L with
+    | nil => intro j; simp [cmdCnt_default]
+    | cons x xs ih =>
+      intro j
+      cases j with
+      | zero => simp
+      | succ j =>
+        simp only [List.getElem?_cons_succ, List.map_cons, List.sum_cons]
+        have := ih j
+        omega
+  have key : ∀ (L : List CmdSt) (i j : Nat), i < j → j < L.length →
+      cmdCnt l (L[i]?.getD {}) + cmdCnt l (L[j]?.getD {}) ≤ (L.map (cmdCnt l)).sum := by
+    intro L
+    induction L with
+    | nil => intro i j _ hj; simp at hj
+    | cons x xs ih =>
+      intro i j hij hj
+      cases j with
+      | zero => omega
+      | succ j =>
+        cases i with
+        | zero =>
+          simp only [List.getElem?_cons_zero, Option.getD_some, List.getElem?_cons_succ, List.map_cons, List.sum_cons]
+          have : cmdCnt l (xs[j]?.getD {}) ≤ (xs.map (cmdCnt l)).sum := by
+            have hj' : j < xs.length := by simpa using hj
+            exact le_sum xs j
+          omega
+        | succ i =>
+          simp only [List.getElem?_cons_succ, List.map_cons, List.sum_cons]
+          have := ih i j (by omega) (by simpa using hj)
+          omega
+  have := key d.w.cmds i j hij hj
+  unfold World.cmd
+  omega
+
+/-- non-vacuity for a nested command (kernel-evaluated; `and` / `all` of requests exhaust the kernel's memory on the
+    fuel-driven loops and are exercised by the correspondence check instead): a mapped request — the world reached holds
+    two commands (the host and the hosted one) and channel 0 is referenced exactly once over both -/
+example : ∃ os d, M.Hosts.runDirect (.mapEv 0 (.req 1 (.lit 0) 1)) false [] = some (os, d) ∧
+    cmdHF (.mapEv 0 (.req 1 (.lit 0) 1)) = true ∧ (d.w.cmds.map (cmdCnt 0)).sum = 1 ∧ d.w.cmds.length = 2 := by
+  refine ⟨_, _, rfl, rfl, ?_, ?_⟩ <;> decide
+
+/-! Not proved here: the same invariant for the Core and Bridge hosts (`Core::process_event` / `resolve`, the bridge's
+    registry), which add a registry and effect queue around the same executor; those are covered by the correspondence
     check (unique payloads, look-alike operations) and listed under `stated_not_proved` in the evidence. -/
 
 example : (resolveReq (.once 0) 5 { leaves := [{}] }).2.1 = .ok := by decide
